@@ -4,8 +4,10 @@ cd /verif
 TIER=${1:-quick}
 for id in C01 C02 C03 C04 C05 C06 C07 C08 C09 C10 C11 C12 C13 C14 C15 C16 C17 C18 C19 C20; do
   s=$(date +%s)
-  out=$(timeout 3000 ./check $id --tier $TIER 2>/dev/null | grep -E "^C[0-9]+:|VIOLATION|INCONCLUSIVE|KNOWN" | tail -4)
-  rc=${PIPESTATUS[0]}
+  tmp=$(mktemp /verif/build/runout.XXXXXX)
+  timeout 3000 ./check $id --tier $TIER > $tmp 2>/dev/null
+  rc=$?
+  out=$(grep -E "^C[0-9]+:|VIOLATION|INCONCLUSIVE|KNOWN" $tmp | tail -4); rm -f $tmp
   e=$(date +%s)
   echo "== $id rc=$rc $((e-s))s"; echo "$out"
 done
